@@ -163,6 +163,7 @@ Outcome RunScenario(const std::vector<uint8_t>& bytes, uint64_t salt, Stats& st_
     bool variant_was_orphan = false;
     bool stripped_orphan_delivered = false; // a witness-stripped copy reached the node while G's parent was unknown (it is then stored as an orphan)
     bool p_confirmed = false;
+    bool closing_txid_mode = false; // set when the closing phase asserts a txid-keyed mode (A2 / B)
     unsigned stalls = 0;
     size_t cursor = 0; // log position up to which getdata messages have been answered
     int64_t elapsed = 0;
@@ -199,6 +200,9 @@ Outcome RunScenario(const std::vector<uint8_t>& bytes, uint64_t salt, Stats& st_
                     CTransactionRef v;
                     VK vk = VK::EXTRA_ITEM;
                     for (auto& [k, var] : variants) if (inv.IsMsgWtx() ? var->GetWitnessHash().ToUint256() == inv.hash : var->GetHash().ToUint256() == inv.hash) { v = var; vk = k; if (s.boolean()) break; }
+                    // while a txid-keyed closing mode is being asserted, a copy that would be stored as an orphan (parent still unknown) is withheld:
+                    // that state belongs to the known findings (probe stage), not to this oracle
+                    if (v && beh >= 2 && closing_txid_mode && !parent_known()) { beh = 0; st.cls("closing-orphan-copy-withheld"); }
                     if (beh == 0 || !v) { stalls++; st.cls("attacker-stalls"); st.note("attacker peer", p, " stalls"); }
                     else if (beh == 1) { net.Send(p, NetMsgType::NOTFOUND, std::vector<CInv>{inv}); st.note("attacker peer", p, " notfound"); }
                     else {
@@ -306,6 +310,7 @@ Outcome RunScenario(const std::vector<uint8_t>& bytes, uint64_t salt, Stats& st_
     const bool mode_b = want == 2 && txid_modes_ok && !in_pool(C);
     const bool mode_a2 = want == 1 && txid_modes_ok && legacy >= 0;
     if (want != 0 && !txid_modes_ok && primary) st.cls("txid-mode-skipped");
+    closing_txid_mode = mode_b || mode_a2;
     int h = honest[s.index(honest.size())];
     if (mode_a2) h = legacy;
     knows[h].insert(G->GetWitnessHash().ToUint256());
@@ -339,7 +344,10 @@ Outcome RunScenario(const std::vector<uint8_t>& bytes, uint64_t salt, Stats& st_
     }
     st.steps++;
     st.note("closing waited ", waited, "s -> G ", in_pool(G) ? "in pool" : "NOT in pool");
-    if (!in_pool(G)) {
+    if (!in_pool(G) && closing_txid_mode && variant_was_orphan) {
+        // belt and braces: a same-txid copy was in the orphanage at some time although a txid-keyed mode was chosen -> known findings, not asserted here
+        if (primary) st.cls("txid-mode-skipped");
+    } else if (!in_pool(G)) {
         out.censored = true;
         out.what = std::string("genuine tx not in the mempool ") + (mode_b ? "(mode B: parent fetch by txid)" : mode_a2 ? "(mode A2: txid announcement by a txid-relay peer)" : "(mode A: wtxid announcement)") +
                    " after " + std::to_string(waited) + "s; variant_before=" + std::to_string(variant_received_before_G) + " orphan_variant=" + std::to_string(variant_was_orphan);
